@@ -5,14 +5,16 @@ package main
 // prediction, and concurrent stress runs checked by oracles on the driver log.
 
 import (
-	"errors"
 	"bufio"
 	"context"
 	"database/sql"
+	"database/sql/driver"
 	"encoding/json"
+	"errors"
 	"flag"
 	"fmt"
 	"os"
+	"regexp"
 	"runtime"
 	"runtime/debug"
 	"sort"
@@ -105,7 +107,7 @@ var cacheStmtCounter int
 //go:noinline
 func (w *cacheWorld) newStmt() {
 	cacheStmtCounter++
-	st, err := sqlair.Prepare(fmt.Sprintf("SELECT &Person.* FROM person WHERE id IN ($IntSlice[:]) -- stmt %d", cacheStmtCounter), Person{}, IntSlice{})
+	st, err := sqlair.Prepare(fmt.Sprintf("SELECT &Person.* FROM person WHERE id IN ($IntSlice[:]) OR name IN ($StrSlice[:]) -- stmt %d", cacheStmtCounter), Person{}, IntSlice{}, StrSlice{})
 	if err != nil {
 		panic(err)
 	}
@@ -179,11 +181,9 @@ func (w *cacheWorld) run(s, d, q, c int, prepok bool, keep bool) string {
 		f.failAt[f.calls+1] = fmt.Errorf("injected-1")
 		f.mu.Unlock()
 	}
-	sl := make(IntSlice, q+1)
-	for i := range sl {
-		sl[i] = i + 1
-	}
-	query := w.dbs[d].Query(w.ctx(c), w.stmts[s], sl)
+	// the generated SQL differs from shape to shape, the number of parameters does not
+	sl, ss := twoSlices(q)
+	query := w.dbs[d].Query(w.ctx(c), w.stmts[s], sl, ss)
 	t := w.nthread
 	w.nthread++
 	var res string
@@ -454,7 +454,7 @@ func genCacheScript(r *rng) []string {
 }
 
 type cacheStats struct {
-	Shared int `json:"histories_with_all_DBs_on_one_sql_DB"`
+	Shared     int            `json:"histories_with_all_DBs_on_one_sql_DB"`
 	Cases      int            `json:"cases"`
 	Ops        map[string]int `json:"op_kinds"`
 	Distinct   int            `json:"distinct_cases"`
@@ -527,6 +527,7 @@ func cmdCache(args []string) int {
 		for k := 0; k < 3; k++ {
 			cacheRerun(r.fork(), addViol)
 			cachePrepareCancel(r.fork(), addViol)
+			heldContext(r.fork(), addViol)
 		}
 		st.Stress++
 	}
@@ -540,6 +541,42 @@ func cmdCache(args []string) int {
 	return 0
 }
 
+// twoSlices: the arguments of shape q of the two-slice statements: q+1 integers and 3-q strings.
+func twoSlices(q int) (IntSlice, StrSlice) {
+	sl := make(IntSlice, q+1)
+	for i := range sl {
+		sl[i] = i + 1
+	}
+	ss := make(StrSlice, 3-q)
+	for i := range ss {
+		ss[i] = fmt.Sprintf("s%d", i)
+	}
+	return sl, ss
+}
+
+var reFirstIn = regexp.MustCompile(`id IN \(([^)]*)\)`)
+
+// shapeMismatch: the executed SQL of a two-slice statement lists as many placeholders in its first IN
+// list as the call has integer arguments.
+func shapeMismatch(ev event) string {
+	m := reFirstIn.FindStringSubmatch(ev.SQL)
+	if m == nil || !strings.Contains(ev.SQL, "name IN") {
+		return ""
+	}
+	inSQL := strings.Count(m[1], "@sqlair_")
+	ints := 0
+	for _, a := range ev.Args {
+		switch a.Value.(type) {
+		case int64, int:
+			ints++
+		}
+	}
+	if inSQL != ints {
+		return fmt.Sprintf("%q executed with %d integer and %d other arguments", ev.SQL, ints, len(ev.Args)-ints)
+	}
+	return ""
+}
+
 // cacheStress runs differently shaped queries on shared Statements and DBs
 // from several goroutines, with garbage collections in between, and checks the
 // driver log: every execution goes through a driver statement prepared from
@@ -550,7 +587,7 @@ func cacheStress(r *rng, add func(violation)) {
 	stmts := make([]*sqlair.Statement, nS)
 	for i := range stmts {
 		cacheStmtCounter++
-		stmts[i] = sqlair.MustPrepare(fmt.Sprintf("SELECT &Person.* FROM person WHERE id IN ($IntSlice[:]) -- stress %d", cacheStmtCounter), Person{}, IntSlice{})
+		stmts[i] = sqlair.MustPrepare(fmt.Sprintf("SELECT &Person.* FROM person WHERE id IN ($IntSlice[:]) OR name IN ($StrSlice[:]) -- stress %d", cacheStmtCounter), Person{}, IntSlice{}, StrSlice{})
 	}
 	dbs := make([]*sqlair.DB, nD)
 	sqldbs := make([]*sql.DB, nD)
@@ -575,6 +612,7 @@ func cacheStress(r *rng, add func(violation)) {
 		sqldb, f := openFake()
 		f.gate = gate
 		f.honourCtx = true
+		f.failKinds = map[string]bool{"query": true, "exec": true}
 		dbs[i] = sqlair.NewDB(sqldb)
 		sqldbs[i] = sqldb
 		fakes[i] = f
@@ -589,8 +627,15 @@ func cacheStress(r *rng, add func(violation)) {
 			defer wg.Done()
 			for k := 0; k < 30; k++ {
 				s, d, q := gr.intn(nS), gr.intn(nD), gr.intn(3)
-				sl := make(IntSlice, q+1)
+				sl, ss := twoSlices(q)
 				var ps []Person
+				// now and then a query of this DB fails in the driver
+				if gr.chance(1, 8) {
+					f := fakes[d]
+					f.mu.Lock()
+					f.failAt[f.calls+1+gr.intn(3)] = fmt.Errorf("injected-9")
+					f.mu.Unlock()
+				}
 				// every fifth call runs under its own context, which is cancelled (or expires) a moment later
 				ctx := context.Background()
 				cancel := func() {}
@@ -601,7 +646,7 @@ func cacheStress(r *rng, add func(violation)) {
 				case 1:
 					ctx, cancel = context.WithTimeout(context.Background(), time.Duration(30+gr.intn(300))*time.Microsecond)
 				}
-				err := dbs[d].Query(ctx, stmts[s], sl).GetAll(&ps)
+				err := dbs[d].Query(ctx, stmts[s], sl, ss).GetAll(&ps)
 				own := ctx.Err()
 				cancel()
 				if err != nil {
@@ -613,6 +658,9 @@ func cacheStress(r *rng, add func(violation)) {
 						viol("C20", "failed-with-the-error-of-another-calls-context", err.Error())
 					case isCtx:
 						// its own context ended: allowed to fail
+					case strings.Contains(err.Error(), "injected-9"):
+						// the injected driver failure (of this call or of another one: the fault is armed
+						// per database)
 					default:
 						viol("C10", "operation-failed-in-fault-free-history", err.Error())
 					}
@@ -651,6 +699,11 @@ func cacheStress(r *rng, add func(violation)) {
 				nargs := len(ev.Args)
 				if strings.Count(ev.SQL, "@sqlair_") != nargs {
 					viol("C09", "statement-shape-differs-from-arguments", fmt.Sprintf("%q with %d args", ev.SQL, nargs))
+				}
+				if d := shapeMismatch(ev); d != "" {
+					for _, p := range []string{"C09", "C01", "C16", "C17", "C04"} {
+						viol(p, "executed-sql-was-generated-for-other-arguments", d)
+					}
 				}
 				if closed[ev.Stmt] > 0 {
 					viol("C10", "closed-driver-statement-executed", fmt.Sprintf("db %d stmt %d", di, ev.Stmt))
@@ -752,6 +805,97 @@ func cachePrepareCancel(r *rng, add func(violation)) {
 	}
 	sqldb.Close()
 	dropFakeDB(f.name)
+}
+
+// heldContext: a Query keeps the context it was built with for every run of it (C20): the driver sees
+// that context whenever the Query is run, and once the context has ended a further run fails with its
+// error and executes nothing.
+func heldContext(r *rng, add func(violation)) {
+	desc := fmt.Sprintf("held Query and its context, seed-state %d", r.s)
+	viol := func(name, detail string) { add(violation{"C20", name, hx(desc), detail}) }
+	cacheStmtCounter++
+	stmt := sqlair.MustPrepare(fmt.Sprintf("SELECT &Person.* FROM person WHERE id IN ($IntSlice[:]) -- hc %d", cacheStmtCounter), Person{}, IntSlice{})
+	sqldb, f := openFake()
+	db := sqlair.NewDB(sqldb)
+	defer func() { sqldb.Close(); dropFakeDB(f.name) }()
+	f.rowsFor = func(sql string, _ []driver.NamedValue) *rowsScript {
+		rs := defaultRows(sql)
+		rs.Rows = nil
+		return rs
+	}
+	const marker = 4242
+	ctx, cancel := context.WithCancel(context.WithValue(context.Background(), markerKey, marker))
+	defer cancel()
+	var q *sqlair.Query
+	var tx *sqlair.TX
+	onTX := r.chance(1, 3)
+	if onTX {
+		var err error
+		tx, err = db.Begin(context.Background(), nil)
+		if err != nil {
+			return
+		}
+		defer tx.Rollback()
+		q = tx.Query(ctx, stmt, make(IntSlice, 1+r.intn(3)))
+	} else {
+		q = db.Query(ctx, stmt, make(IntSlice, 1+r.intn(3)))
+	}
+	run := func() error {
+		switch r.intn(3) {
+		case 0:
+			var ps []Person
+			return q.GetAll(&ps)
+		case 1:
+			it := q.Iter()
+			for it.Next() {
+			}
+			return it.Close()
+		default:
+			return q.Run()
+		}
+	}
+	pos := len(f.log())
+	runs := 2 + r.intn(2)
+	for i := 0; i < runs; i++ {
+		if i > 0 && r.chance(1, 2) {
+			// meanwhile the statement is used with another shape under another context
+			var ps []Person
+			db.Query(context.Background(), stmt, make(IntSlice, 5)).GetAll(&ps)
+			pos = len(f.log())
+		}
+		err := run()
+		if err != nil && !errors.Is(err, sqlair.ErrNoRows) {
+			viol("held-query-run-failed", fmt.Sprintf("run %d: %v", i+1, err))
+		}
+		executed := false
+		for _, ev := range f.log()[pos:] {
+			switch ev.Kind {
+			case "query", "exec":
+				executed = true
+				if m, _ := ev.CtxMarker.(int); m != marker {
+					viol("held-query-run-without-its-context", fmt.Sprintf("run %d: the driver executed under a context with marker %v", i+1, ev.CtxMarker))
+				}
+			case "prepare":
+				if m, _ := ev.CtxMarker.(int); m != marker && !onTX {
+					viol("held-query-run-without-its-context", fmt.Sprintf("run %d: the driver prepared under a context with marker %v", i+1, ev.CtxMarker))
+				}
+			}
+		}
+		if !executed {
+			viol("held-query-run-executed-nothing", fmt.Sprintf("run %d", i+1))
+		}
+		pos = len(f.log())
+	}
+	cancel()
+	err := run()
+	if err == nil || !(errors.Is(err, context.Canceled) || strings.Contains(err.Error(), "context canceled")) {
+		viol("run-after-the-context-ended-did-not-fail-with-its-error", fmt.Sprintf("%v", err))
+	}
+	for _, ev := range f.log()[pos:] {
+		if ev.Kind == "query" || ev.Kind == "exec" {
+			viol("executed-although-the-context-had-ended", ev.SQL)
+		}
+	}
 }
 
 // cacheRerun: a Query object that the caller keeps is run again after the statement it used was
